@@ -286,7 +286,9 @@ where
         MsgColor::Cyan => left.cyan(),
         MsgColor::Red => left.red(),
     };
-    println!("{left:>12} {right}");
+    // A status line which cannot be written (eg. `lace compile ... | head -1`) must not abort a
+    // command which is otherwise succeeding
+    let _ = writeln!(std::io::stdout(), "{left:>12} {right}");
 }
 
 fn run(name: &PathBuf, debugger_opts: Option<debugger::Options>, minimal: bool) -> Result<()> {
